@@ -270,6 +270,12 @@ impl State {
     }
 }
 
+fn observe_val(a: &Array, h: i64, with_grads: bool) -> Value {
+    let mut o = observe(a, h, with_grads);
+    o["val"] = tensor_out(a);
+    o
+}
+
 fn observe(a: &Array, h: i64, with_grads: bool) -> Value {
     let t = a.stop_tracking();
     if t {
@@ -640,7 +646,7 @@ fn run_step(st: &mut State, step: &Value) -> Value {
     for slot in st.layers.values() {
         let mut b = slot.inner.borrow_mut();
         for (p, h) in b.parameters().iter().zip(&slot.ph) {
-            live.push(observe(p, *h, with_grads));
+            live.push(if op == "m_update" { observe_val(p, *h, with_grads) } else { observe(p, *h, with_grads) });
         }
     }
     live.sort_by_key(|o| o["h"].as_i64().unwrap());
